@@ -1,33 +1,580 @@
 package exec
 
 import (
+	"fmt"
+	"go/token"
 	"go/types"
+	"sync"
 
 	"golang.org/x/tools/go/ssa"
 )
 
+// Modelled goroutines. Each target goroutine runs on its own Go goroutine but
+// only one executes at a time (baton passing). At every synchronisation
+// operation the scheduler forks over which runnable goroutine proceeds
+// (schedule = symbolic choice, explored exhaustively by the path DFS). Between
+// synchronisation operations a goroutine runs alone; that is sufficient
+// because every heap access is fed to a vector-clock happens-before detector:
+// a race is reported as a violation, and without races only sync-level
+// interleavings are observable.
+
 type vclock []int
 
-// gsched: placeholder until modelled goroutines are implemented.
-type gsched struct{}
-
-func newGsched(w *Worker) *gsched { return &gsched{} }
-
-func (g *gsched) access(w *Worker, p *value, write bool)      {}
-func (g *gsched) accessMap(w *Worker, m *symMap, write bool)  {}
-func (g *gsched) send(w *Worker, c *channel, v value)         { w.unsupported("channel send") }
-func (g *gsched) recv(w *Worker, c *channel, ok bool, t types.Type) value {
-	w.unsupported("channel receive")
-	return nil
-}
-func (g *gsched) closeChan(w *Worker, c *channel) { w.unsupported("close") }
-func (g *gsched) spawn(w *Worker, fr *frame, instr *ssa.Go, fn value, args []value) {
-	w.unsupported("go statement")
-}
-func (g *gsched) selectStmt(w *Worker, fr *frame, instr *ssa.Select) value {
-	w.unsupported("select")
-	return nil
+func (v vclock) get(i int) int {
+	if i < len(v) {
+		return v[i]
+	}
+	return 0
 }
 
-func (g *gsched) wgAdd(w *Worker, p *value, d int) {}
-func (g *gsched) wgWait(w *Worker, p *value)        {}
+func (v vclock) copy() vclock { return append(vclock(nil), v...) }
+
+func join(a, b vclock) vclock {
+	if len(b) > len(a) {
+		a = append(a, make(vclock, len(b)-len(a))...)
+	}
+	for i, x := range b {
+		if x > a[i] {
+			a[i] = x
+		}
+	}
+	return a
+}
+
+const (
+	gRunnable = iota
+	gBlocked
+	gDone
+)
+
+type gor struct {
+	id     int
+	resume chan struct{}
+	state  int
+	ready  func() bool
+	vc     vclock
+	// saved interpreter context
+	callStack []*ssa.Function
+	depth     int
+	curPos    token.Pos
+	name      string
+}
+
+type gorKill struct{}
+
+type chanMsg struct {
+	v  value
+	vc vclock
+}
+
+type wgState struct {
+	n   int
+	clk vclock
+}
+
+type locState struct {
+	wg, wclk int // last write: goroutine id, clock (-1: none)
+	wpos     token.Pos
+	reads    map[int]int
+	rpos     map[int]token.Pos
+}
+
+type gsched struct {
+	w       *Worker
+	gs      []*gor
+	cur     *gor
+	dead    bool
+	abort   interface{}
+	wgs     map[*value]*wgState
+	locs    map[*value]*locState
+	mapLocs map[*symMap]*locState
+	exits   sync.WaitGroup
+	nchan   int
+	msgs    map[*channel][]chanMsg // parallel to channel.buf: sender clocks
+	active  bool                   // more than one goroutine has existed
+}
+
+func newGsched(w *Worker) *gsched {
+	s := &gsched{w: w, wgs: map[*value]*wgState{}, locs: map[*value]*locState{}, mapLocs: map[*symMap]*locState{}, msgs: map[*channel][]chanMsg{}}
+	main := &gor{id: 0, resume: make(chan struct{}, 1), vc: vclock{1}, name: "main"}
+	s.gs = []*gor{main}
+	s.cur = main
+	return s
+}
+
+// fatal ends the path from whichever goroutine is running.
+func (s *gsched) fatal(p interface{}) {
+	if s.cur.id == 0 {
+		panic(p)
+	}
+	s.abort = p
+	s.dead = true
+	s.gs[0].resume <- struct{}{}
+	panic(gorKill{})
+}
+
+func (s *gsched) runnable() []*gor {
+	var r []*gor
+	for _, g := range s.gs {
+		switch g.state {
+		case gRunnable:
+			r = append(r, g)
+		case gBlocked:
+			if g.ready() {
+				r = append(r, g)
+			}
+		}
+	}
+	return r
+}
+
+// switchTo hands the baton to next and waits until it comes back.
+func (s *gsched) switchTo(next *gor) {
+	w := s.w
+	prev := s.cur
+	if next == prev {
+		return
+	}
+	prev.callStack = append(prev.callStack[:0], w.callStack...)
+	prev.depth, prev.curPos = w.depth, w.curPos
+	s.cur = next
+	w.callStack = append(w.callStack[:0], next.callStack...)
+	w.depth, w.curPos = next.depth, next.curPos
+	next.resume <- struct{}{}
+	<-prev.resume
+	if s.dead {
+		if prev.id == 0 {
+			if s.abort != nil {
+				p := s.abort
+				s.abort = nil
+				panic(p)
+			}
+			return
+		}
+		panic(gorKill{})
+	}
+	s.cur = prev
+	w.callStack = append(w.callStack[:0], prev.callStack...)
+	w.depth, w.curPos = prev.depth, prev.curPos
+}
+
+// yield is a scheduling point: any runnable goroutine may proceed.
+func (s *gsched) yield(kind string) {
+	if !s.active {
+		return
+	}
+	cands := s.runnable()
+	if len(cands) == 0 {
+		s.deadlock()
+	}
+	k := 0
+	if len(cands) > 1 {
+		k = s.w.decide(make([]T, len(cands)), false, "sched:"+kind)
+	}
+	next := cands[k]
+	if next.state == gBlocked {
+		next.state = gRunnable
+	}
+	s.switchTo(next)
+}
+
+// block parks the current goroutine until ready() holds.
+func (s *gsched) block(ready func() bool, kind string) {
+	g := s.cur
+	g.state = gBlocked
+	g.ready = ready
+	cands := s.runnable()
+	if len(cands) == 0 {
+		s.deadlock()
+	}
+	k := 0
+	if len(cands) > 1 {
+		k = s.w.decide(make([]T, len(cands)), false, "sched:block:"+kind)
+	}
+	next := cands[k]
+	next.state = gRunnable
+	if next == g {
+		return
+	}
+	s.switchTo(next)
+	g.state = gRunnable
+}
+
+func (s *gsched) deadlock() {
+	w := s.w
+	if w.live() {
+		vec := w.modelVectorChecked()
+		if vec != nil {
+			w.recordViolation("deadlock", "deadlock: all goroutines are blocked", w.curPos, vec, "")
+		}
+	}
+	s.fatal(pathEnd{kind: "violation"})
+}
+
+func (s *gsched) spawn(w *Worker, fr *frame, instr *ssa.Go, fn value, args []value) {
+	s.active = true
+	parent := s.cur
+	g := &gor{id: len(s.gs), resume: make(chan struct{}, 1), name: fmt.Sprintf("g%d", len(s.gs))}
+	g.vc = parent.vc.copy()
+	for len(g.vc) <= g.id {
+		g.vc = append(g.vc, 0)
+	}
+	g.vc[g.id] = 1
+	parent.vc[parent.id]++
+	s.gs = append(s.gs, g)
+	s.exits.Add(1)
+	go func() {
+		defer s.exits.Done()
+		<-g.resume
+		if s.dead {
+			return
+		}
+		defer func() {
+			r := recover()
+			if r == nil {
+				return
+			}
+			if _, ok := r.(gorKill); ok {
+				return
+			}
+			// path end or uncaught target panic inside a goroutine: hand to main
+			if tp, ok := r.(targetPanic); ok && !s.dead {
+				// an uncaught panic in a goroutine crashes the program
+				if w.live() {
+					if vec := w.modelVectorChecked(); vec != nil {
+						w.recordViolation("panic", "panic in goroutine: "+toString(tp.v), tp.pos, vec, "")
+					}
+				}
+				r = pathEnd{kind: "violation"}
+			}
+			if !s.dead {
+				s.abort = r
+				s.dead = true
+				s.gs[0].resume <- struct{}{}
+			}
+		}()
+		w.call(nil, instr.Pos(), fn, args)
+		// goroutine finished
+		g.state = gDone
+		cands := s.runnable()
+		if len(cands) == 0 {
+			// everything else is blocked (main included): deadlock
+			s.deadlockFromExit()
+			return
+		}
+		k := 0
+		if len(cands) > 1 {
+			k = w.decide(make([]T, len(cands)), false, "sched:exit")
+		}
+		next := cands[k]
+		if next.state == gBlocked {
+			next.state = gRunnable
+		}
+		s.cur = next
+		w.callStack = append(w.callStack[:0], next.callStack...)
+		w.depth, w.curPos = next.depth, next.curPos
+		next.resume <- struct{}{}
+	}()
+}
+
+func (s *gsched) deadlockFromExit() {
+	w := s.w
+	if w.live() {
+		vec := w.modelVectorChecked()
+		if vec != nil {
+			w.recordViolation("deadlock", "deadlock: all goroutines are blocked", w.curPos, vec, "")
+		}
+	}
+	s.abort = pathEnd{kind: "violation"}
+	s.dead = true
+	s.gs[0].resume <- struct{}{}
+}
+
+// killAll terminates parked goroutines at the end of a path.
+func (s *gsched) killAll() {
+	s.dead = true
+	for _, g := range s.gs[1:] {
+		if g.state != gDone {
+			select {
+			case g.resume <- struct{}{}:
+			default:
+			}
+		}
+	}
+	s.exits.Wait()
+}
+
+// ---- channels ----
+
+func (s *gsched) send(w *Worker, c *channel, v value) {
+	if c == nil {
+		s.block(func() bool { return false }, "send-nil")
+	}
+	s.yield("send")
+	for {
+		if c.closed {
+			w.throwRuntime("send on closed channel")
+		}
+		if len(c.buf) < c.cap || (c.cap == 0 && c.recvWaiting > 0 && len(c.buf) == 0) {
+			g := s.cur
+			c.buf = append(c.buf, copyVal(v))
+			s.msgs[c] = append(s.msgs[c], chanMsg{vc: g.vc.copy()})
+			g.vc[g.id]++
+			if c.cap == 0 {
+				// rendezvous: wait until the receiver has taken it
+				s.block(func() bool { return len(c.buf) == 0 }, "send-sync")
+			}
+			return
+		}
+		s.block(func() bool {
+			return c.closed || len(c.buf) < c.cap || (c.cap == 0 && c.recvWaiting > 0 && len(c.buf) == 0)
+		}, "send")
+	}
+}
+
+func (s *gsched) recv(w *Worker, c *channel, commaOk bool, t types.Type) value {
+	if c == nil {
+		s.block(func() bool { return false }, "recv-nil")
+	}
+	s.yield("recv")
+	elemT := t
+	if commaOk {
+		elemT = t.(*types.Tuple).At(0).Type()
+	}
+	for {
+		if len(c.buf) > 0 {
+			v := s.take(c)
+			if commaOk {
+				return tuple{v, w.tb.True}
+			}
+			return v
+		}
+		if c.closed {
+			g := s.cur
+			g.vc = join(g.vc, c.closeClk)
+			z := w.zero(elemT)
+			if commaOk {
+				return tuple{z, w.tb.False}
+			}
+			return z
+		}
+		c.recvWaiting++
+		s.block(func() bool { return len(c.buf) > 0 || c.closed }, "recv")
+		c.recvWaiting--
+	}
+}
+
+func (s *gsched) take(c *channel) value {
+	v := c.buf[0]
+	c.buf = c.buf[1:]
+	ms := s.msgs[c]
+	g := s.cur
+	g.vc = join(g.vc, ms[0].vc)
+	s.msgs[c] = ms[1:]
+	return v
+}
+
+func (s *gsched) closeChan(w *Worker, c *channel) {
+	if c == nil {
+		w.throwRuntime("close of nil channel")
+	}
+	s.yield("close")
+	if c.closed {
+		w.throwRuntime("close of closed channel")
+	}
+	g := s.cur
+	c.closed = true
+	c.closeClk = g.vc.copy()
+	g.vc[g.id]++
+}
+
+func (s *gsched) selectStmt(w *Worker, fr *frame, instr *ssa.Select) value {
+	s.yield("select")
+	type st struct {
+		c    *channel
+		send value
+		dir  types.ChanDir
+	}
+	var states []st
+	for _, state := range instr.States {
+		c, _ := fr.get(state.Chan).(*channel)
+		var sv value
+		if state.Send != nil {
+			sv = fr.get(state.Send)
+		}
+		states = append(states, st{c: c, send: sv, dir: state.Dir})
+	}
+	readyIdx := func() []int {
+		var r []int
+		for i, x := range states {
+			if x.c == nil {
+				continue
+			}
+			if x.dir == types.RecvOnly {
+				if len(x.c.buf) > 0 || x.c.closed {
+					r = append(r, i)
+				}
+			} else {
+				if x.c.closed || len(x.c.buf) < x.c.cap {
+					r = append(r, i)
+				}
+			}
+		}
+		return r
+	}
+	for {
+		r := readyIdx()
+		if len(r) == 0 {
+			if !instr.Blocking {
+				return s.selectResult(w, instr, -1, nil, false)
+			}
+			s.block(func() bool { return len(readyIdx()) > 0 }, "select")
+			continue
+		}
+		k := 0
+		if len(r) > 1 {
+			k = w.decide(make([]T, len(r)), false, "select")
+		}
+		i := r[k]
+		x := states[i]
+		if x.dir == types.RecvOnly {
+			if len(x.c.buf) > 0 {
+				v := s.take(x.c)
+				return s.selectResult(w, instr, i, v, true)
+			}
+			g := s.cur
+			g.vc = join(g.vc, x.c.closeClk)
+			return s.selectResult(w, instr, i, nil, false)
+		}
+		if x.c.closed {
+			w.throwRuntime("send on closed channel")
+		}
+		g := s.cur
+		x.c.buf = append(x.c.buf, copyVal(x.send))
+		s.msgs[x.c] = append(s.msgs[x.c], chanMsg{vc: g.vc.copy()})
+		g.vc[g.id]++
+		return s.selectResult(w, instr, i, nil, false)
+	}
+}
+
+func (s *gsched) selectResult(w *Worker, instr *ssa.Select, chosen int, recv value, recvOk bool) value {
+	r := tuple{w.tb.Const(64, uint64(int64(chosen))), w.tb.Bool(recvOk)}
+	for i, st := range instr.States {
+		if st.Dir == types.RecvOnly {
+			var v value
+			if i == chosen && recvOk {
+				v = recv
+			} else {
+				v = w.zero(st.Chan.Type().Underlying().(*types.Chan).Elem())
+			}
+			r = append(r, v)
+		}
+	}
+	return r
+}
+
+// ---- WaitGroup ----
+
+func (s *gsched) wgAdd(w *Worker, p *value, d int) {
+	st, ok := s.wgs[p]
+	if !ok {
+		st = &wgState{}
+		s.wgs[p] = st
+	}
+	st.n += d
+	if st.n < 0 {
+		w.throwRuntime("sync: negative WaitGroup counter")
+	}
+	if d < 0 {
+		g := s.cur
+		st.clk = join(st.clk, g.vc)
+		g.vc[g.id]++
+	}
+}
+
+func (s *gsched) wgWait(w *Worker, p *value) {
+	st, ok := s.wgs[p]
+	if !ok {
+		return
+	}
+	s.yield("wg.Wait")
+	for st.n > 0 {
+		s.block(func() bool { return st.n == 0 }, "wg.Wait")
+	}
+	g := s.cur
+	g.vc = join(g.vc, st.clk)
+}
+
+// ---- happens-before race detection ----
+
+func (s *gsched) access(w *Worker, p *value, write bool) {
+	if !s.active {
+		return
+	}
+	switch a := (*p).(type) {
+	case structure:
+		for i := range a {
+			s.access(w, &a[i], write)
+		}
+		return
+	case array:
+		for i := range a {
+			s.access(w, &a[i], write)
+		}
+		return
+	}
+	l, ok := s.locs[p]
+	if !ok {
+		l = &locState{wg: -1}
+		s.locs[p] = l
+	}
+	s.check(w, l, write, "memory")
+}
+
+func (s *gsched) accessMap(w *Worker, m *symMap, write bool) {
+	if !s.active {
+		return
+	}
+	l, ok := s.mapLocs[m]
+	if !ok {
+		l = &locState{wg: -1}
+		s.mapLocs[m] = l
+	}
+	s.check(w, l, write, "map")
+}
+
+func (s *gsched) check(w *Worker, l *locState, write bool, what string) {
+	g := s.cur
+	if l.wg >= 0 && l.wg != g.id && l.wclk > g.vc.get(l.wg) {
+		s.race(w, what, l.wpos, "write", write)
+	}
+	if write {
+		for r, clk := range l.reads {
+			if r != g.id && clk > g.vc.get(r) {
+				s.race(w, what, l.rpos[r], "read", write)
+			}
+		}
+		l.wg, l.wclk, l.wpos = g.id, g.vc[g.id], w.curPos
+		l.reads, l.rpos = nil, nil
+		return
+	}
+	if l.reads == nil {
+		l.reads, l.rpos = map[int]int{}, map[int]token.Pos{}
+	}
+	l.reads[g.id] = g.vc[g.id]
+	l.rpos[g.id] = w.curPos
+}
+
+func (s *gsched) race(w *Worker, what string, otherPos token.Pos, otherKind string, write bool) {
+	kind := "read"
+	if write {
+		kind = "write"
+	}
+	label := fmt.Sprintf("data race (%s): %s at %s is concurrent with %s at %s", what, kind, w.posStr(w.curPos), otherKind, w.posStr(otherPos))
+	if w.live() {
+		if vec := w.modelVectorChecked(); vec != nil {
+			w.recordViolation("race", label, w.curPos, vec, "")
+		}
+	}
+	s.fatal(pathEnd{kind: "violation"})
+}
